@@ -64,6 +64,17 @@ def _build(case):
     for ispec in case['ifaces']:
         ms = [I.Method(m['name'], m['in'], m['out']) for m in ispec['methods']]
         ifaces[ispec['name']] = I.DBusInterface(ispec['name'], *ms, noRegister=True)
+    if _via_parser(case):
+        # the exporter did not write its definitions by hand: they came out of the introspection parser (a bridge
+        # re-exporting what it introspected elsewhere)
+        from txdbus import introspection as X
+        saved_known = dict(I.DBusInterface.knownInterfaces)
+        try:
+            xml = '<node name="/">' + ''.join(i.introspectionXml for i in ifaces.values()) + '</node>'
+            ifaces = {pi.name: pi for pi in X.getInterfacesFromXML(xml, True)}
+        finally:
+            I.DBusInterface.knownInterfaces.clear()
+            I.DBusInterface.knownInterfaces.update(saved_known)
     base_ns = {'_verif_call': _verif_call,
                'dbusInterfaces': [ifaces[i['name']] for i in case['ifaces'] if i['level'] == 0]}
     sub_ns = {'dbusInterfaces': [ifaces[i['name']] for i in case['ifaces'] if i['level'] == 1]}
@@ -157,6 +168,10 @@ def _plain_for(O, dbus_obj):
         components.registerAdapter(lambda plain: plain.dbus_obj, _Plain, O.IDBusObject)
         _ADAPTER_REGISTERED.append(True)
     return _Plain(dbus_obj)
+
+
+def _via_parser(case):
+    return case.get('via_parser', (len(case['ifaces']) + len(case['calls'])) % 5 == 2)
 
 
 def _adapted(case):
@@ -445,6 +460,8 @@ def classify(case):
         labels.append('older_edition_in_base_class')
     if _adapted(case):
         labels.append('exported_through_adapter')
+    if _via_parser(case):
+        labels.append('definitions_from_the_xml_parser')
     for call in case['calls']:
         exported = call['path'] == case['path']
         cands = [m for i in case['ifaces'] if call['iface'] in (None, i['name']) for m in i['methods']
